@@ -20,6 +20,13 @@ func init() {
 func storageSide(v ssa.Value) string {
 	// the identifier may travel as a field of a small bundle built by a helper: out := s.outgoing(); … out.id …
 	for i := 0; i < 3; i++ {
+		// the parameter of a helper cut out of the handler stands for the argument at its only call site
+		if p, isP := v.(*ssa.Parameter); isP && p.Parent() != nil {
+			if a, has := an.OwnerSub(p.Parent())[p]; has && a != v {
+				v = a
+				continue
+			}
+		}
 		ld, isLd := v.(*ssa.UnOp)
 		if !isLd {
 			break
